@@ -157,6 +157,17 @@ def class_configs(tier, seed):
                     reps[cls] = dict(sid=sid, ver=list(ver), etm=etm, cbc=cbc, name=m["name"],
                                      aead=m["aead"], cipher=m["cipher"])
     out = [reps[k] for k in sorted(reps, key=repr)]
+    # the same connections, but negotiated by a TLS 1.3 capable client whose ClientHello offered 0-RTT data
+    # (early_data + pre_shared_key) to a server limited to an older version: the server's tolerance for
+    # undecryptable early records must end with the first record it processes
+    early = []
+    for c in out:
+        if tuple(c["ver"]) in ((3, 3), (3, 1)) and c["cipher"] in ("aes128gcm", "aes128", "chacha20-poly1305", "3des") \
+                and c["etm"] and "anon" not in c["name"].lower() and "SRP" not in c["name"]:
+            e = dict(c)
+            e["early"] = True
+            early.append(e)
+    out += early[:6]
     for i, c in enumerate(out):
         c["case"] = i
     return out
@@ -173,12 +184,32 @@ def setup_pair(cfg, tag):
     extra = {"useEncryptThenMAC": cfg["etm"]}
     f = suites.force(cfg["sid"], ver, extra, dict(extra))
     p = Pair("c02-%d-%s" % (cfg["case"], tag))
+    if cfg.get("early"):
+        from tlslite.constants import ContentType, HandshakeType, ExtensionType
+        from tlslite.extensions import TLSExtension
+        cs = f["ckw"]["settings"]
+        cs.maxVersion = (3, 4)
+        cs.pskConfigs = [(bytearray(b"verif-psk"), bytearray(b"\x11" * 32))]
+        orig_send = p.c._sendMsg
+
+        def _sendMsg(msg, *a, **kw):
+            if msg.contentType == ContentType.handshake and getattr(msg, "handshakeType", None) == HandshakeType.client_hello \
+                    and not msg.getExtension(ExtensionType.early_data):
+                exts = list(msg.extensions)
+                # pre_shared_key has to stay the last extension
+                pos = len(exts) - 1 if exts and exts[-1].extType == ExtensionType.pre_shared_key else len(exts)
+                exts.insert(pos, TLSExtension(extType=ExtensionType.early_data).create(bytearray()))
+                msg.extensions = exts
+            return orig_send(msg, *a, **kw)
+        p.c._sendMsg = _sendMsg
     tr = RecTracer()
     tr.emit("CFG", ver=ver[1], cbc=cfg["cbc"], crsl=16385, srsl=16385, cuser=16384, suser=16384)
     stc = tr.attach(p.c, "c")
     sts = tr.attach(p.s, "s")
     st, co, so = p.handshake(ckw=f["ckw"], skw=f["skw"], kind=f["kind"])
     ok = co.ok and so.ok and p.c.session.cipherSuite == cfg["sid"]
+    if ok and cfg.get("early") and not (b"\x00\x2a\x00\x00" in bytes(p.c2s.sent_log[:800])):
+        ok = False     # the ClientHello did not carry early_data
     return p, tr, ok, "%s/%s" % (co.describe(), so.describe())
 
 
